@@ -18,6 +18,9 @@ GNext ==
             \/ AtomOp(mm_, dd_) /\ hist' = Append(hist, <<"AtomOp", mm_, dd_, 0>>)
             \/ NewAtomRot(mm_, dd_) /\ hist' = Append(hist, <<"AtomRot", mm_, dd_, 0>>)
             \/ NewMol(mm_, dd_) /\ hist' = Append(hist, <<"Mol", mm_, dd_, 0>>)
+       \* an atomic grid over all degrees of the model at once (single degrees are NewAtom), and read-only uses
+       \/ \E mm_ \in Methods : NewAtomSet(mm_, Degrees) /\ hist' = Append(hist, <<"AtomSet", mm_, 0, 0>>)
+       \/ \E i_ \in 1..MaxObjs : Use(i_) /\ hist' = Append(hist, <<"Use", "", i_, 0>>)
 GSpec == GInit /\ [][GNext]_gvars
 Emit == Len(hist) = MaxLen => PrintT(<<"BEH", hist>>)
 =============================================================================
